@@ -430,9 +430,9 @@ Definition eval (l : list astmt) : option mval :=
 Definition valid (l : list astmt) : Prop := exists v, eval l = Some v.
 
 (* the same statements through the unmodified Spec/Defs.v interpreter (moves a table to the
-   end when its own header arrives late: the trees differ from `eval`'s in the order of keys only;
-   that relation is not proved in Coq, the correspondence run compares `eval` with the real
-   parser's key-sorted tables) *)
+   end when its own header arrives late).  Proofs/MacroEq.v `eval_same_as_spec`: whenever this
+   says valid, so does `eval`, and the two trees have the same content under every key,
+   recursively (the order of keys is the only difference) *)
 Fixpoint stmts_meaning (l : list astmt) : option (list (stmt mval)) :=
   match l with
   | [] => Some []
